@@ -67,6 +67,7 @@ package cpumem
 //@     invariant[C05] let plans == res(schedule.GetCPUPlans) :: forall k :: 0 <= k && k <= rangeindex ==>
 //@                              workloadsResource[k] != nil && enginesParams[k] != nil && workloadsResource[k].CPURequest == req.CPURequest && workloadsResource[k].CPUMap == plans[k].CPUMap
 //@                              && enginesParams[k].CPUMap == plans[k].CPUMap && workloadsResource[k].NUMANode == plans[k].NUMANode && workloadsResource[k].MemoryRequest == req.MemRequest
+//@     invariant forall k :: 0 <= k && k <= rangeindex ==> allocated(workloadsResource[k]) && allocated(enginesParams[k])
 //@     invariant (arr(workloadsResource) == 0 || (fresh(workloadsResource) && allocated(workloadsResource))) && (arr(enginesParams) == 0 || (fresh(enginesParams) && allocated(enginesParams)))
 
 //@ # reading the stored node records (etcd + JSON): assumed to yield records that Validate accepted
